@@ -36,6 +36,7 @@ class Translator(object):
     def __init__(self, module, cls=None, env=None, self_obj=None):
         self.module, self.cls, self.env = module, cls, dict(env or {})
         self.depth = 0
+        self.defined_if = []       # sub-expressions that must be non-zero for the evaluation not to raise (divisors, bases of negative powers)
 
     def num(self, v):
         if isinstance(v, bool): raise Unsupported('bool constant in formula')
@@ -57,8 +58,12 @@ class Translator(object):
             if isinstance(n.op, ast.Add): return l + r
             if isinstance(n.op, ast.Sub): return l - r
             if isinstance(n.op, ast.Mult): return l * r
-            if isinstance(n.op, ast.Div): return l / r
-            if isinstance(n.op, ast.Pow): return l ** r
+            if isinstance(n.op, ast.Div):
+                self.defined_if.append(r)
+                return l / r
+            if isinstance(n.op, ast.Pow):
+                if not (getattr(r, 'is_nonnegative', None) is True): self.defined_if.append(('pow', l, r))
+                return l ** r
         if isinstance(n, ast.Attribute):
             # math.pi ; self.Ck1 (class constant)
             if isinstance(n.value, ast.Name) and n.value.id == 'math' and n.attr == 'pi': return sp.pi
@@ -100,7 +105,11 @@ def translate_method(module, cls, meth, args, depth=0):
     if fi.node.args.vararg: raise Unsupported('varargs formula')
     if len(params) != len(args): raise Unsupported('%s.%s called with %d arguments' % (cls, meth, len(args)))
     t = Translator(module, cls, dict(zip(params, args))); t.depth = depth
-    return run_body(t, fi.body)
+    out = run_body(t, fi.body)
+    _LAST_DEFINED_IF.extend(t.defined_if)
+    return out
+
+_LAST_DEFINED_IF = []
 
 def run_body(t, body):
     for s in body:
@@ -343,7 +352,13 @@ def polynomial_term(relpath, cls, meth):
     rs = ast.unparse(ret.value)
     if rs not in ('sum(v)', 'sum([0] + v)'): raise Unsupported('polynomial return %s' % rs)
     g = comp.generators[0]
-    if ast.unparse(g.iter) != 'enumerate(coefs)' or ast.unparse(g.target) not in ('(i, c)', 'i, c') or g.ifs: raise Unsupported('polynomial comprehension')
+    it = ast.unparse(g.iter)
+    if it.startswith('list(enumerate(coefs))[') and it.endswith(':]') and k == 0:
+        k = int(it[len('list(enumerate(coefs))['):-2]); computed_from = k      # only indices >= k are evaluated at all
+    elif it == 'enumerate(coefs)': computed_from = 0
+    else: raise Unsupported('polynomial comprehension over %s' % it)
+    if ast.unparse(g.target) not in ('(i, c)', 'i, c') or g.ifs: raise Unsupported('polynomial comprehension')
+    polynomial_term.computed_from = computed_from
     # r, coefs = self._split_args(args)  with _split_args returning (args[0], args[1:]) is checked separately
     i = sp.Symbol('i', integer=True, nonnegative=True); c = sym('c')
     t = Translator(fi.module, cls, {'r': R, 'i': i, 'c': c})
@@ -413,3 +428,21 @@ def paths(relpath, qualname, env):
         out.append((cond, None, env))
     run(fi.body, env, [])
     return out
+
+
+def definedness_at_origin(relpath, cls, meth, params, extra_subs=None):
+    """-> list of sub-expressions whose evaluation at r = 0 raises (division by zero / zero to a negative power)"""
+    del _LAST_DEFINED_IF[:]
+    method_term(relpath, cls, meth, [R] + list(params))
+    bad = []
+    for c in list(_LAST_DEFINED_IF):
+        if isinstance(c, tuple):
+            _, base, ex = c
+            b0 = sp.sympify(base).subs(R, 0)
+            if extra_subs: b0 = b0.subs(extra_subs); ex = sp.sympify(ex).subs(extra_subs)
+            if b0 == 0 and not (sp.sympify(ex).is_nonnegative is True): bad.append('%s ** %s' % (base, ex))
+        else:
+            d0 = sp.sympify(c).subs(R, 0)
+            if extra_subs: d0 = d0.subs(extra_subs)
+            if d0 == 0: bad.append('division by %s' % (c,))
+    return bad
